@@ -10,11 +10,11 @@ LEAN_MODULES = ["Ebv.Props.C11"]
 MODEL_MODULES = ["Ebv.Model.Frame"]
 DRIVER = "Drivers/C11.lean"
 THEOREMS = [
-    "Ebv.C11.parse_assemble_partial", "Ebv.C11.parse_assemble_refuted", "Ebv.C11.expect_addr",
+    "Ebv.C11.parse_assemble", "Ebv.C11.ident_more", "Ebv.C11.old_header_refuted", "Ebv.C11.expect_addr",
     "Ebv.C11.assemble_isSome_iff", "Ebv.C11.more_flags", "Ebv.C11.positions_exact", "Ebv.C11.size_bound",
     "Ebv.C11.pad_min", "Ebv.C11.reject_iff", "Ebv.C11.appendAll_spec", "Ebv.C11.appendAll_isSome_iff",
     "Ebv.C11.full_iff", "Ebv.C11.sterile_spec", "Ebv.C11.sterile_bytes", "Ebv.C11.sterile_diff",
-    "Ebv.C11.sterile_parse_partial", "Ebv.C11.counters_exact",
+    "Ebv.C11.sterile_parse", "Ebv.C11.counters_exact",
 ]
 TRUSTED = ["hand-written model Ebv.Frame of Packet.append/assemble/full and SterilePacket.append/append_writer/sterile, "
            "tied by exact byte/position correspondence",
@@ -167,9 +167,7 @@ def oracle(ctx, case, obs):
     f = parse_frame(frame)
     if not req(isinstance(f, dict), f"independent parser rejects the frame: {f}", "parse"):
         return
-    if f["dangling_more"]:
-        req(False, "last datagram of the frame has the 'more' flag set",
-            "empty-more" if not acc else "more")
+    req(not f["dangling_more"], "last datagram of the frame has the 'more' flag set", "more")
     paylen = ID_DGRAM + sum(len(data_of(o)) + DG_OVERHEAD for o in accops)
     req(f["len"] == paylen and f["typ"] == 1 and f["rsv"] == 0, "frame header: length/type", "header")
     req(len(frame) == max(MINPAY, FRAME_HDR + paylen), "frame length is payload padded to the minimum", "pad")
@@ -180,6 +178,7 @@ def oracle(ctx, case, obs):
     req((d0["cmd"], d0["idx"], d0["adp"] | d0["ado"] << 16, d0["len"], d0["rc"], d0["irq"], d0["data"], d0["wkc"])
         == (0, 0, case["index"] & 0xFFFFFFFF, 2, 0, 0, case["ethertype"].to_bytes(2, "little"), 0)
         and d0["off"] == FRAME_HDR, "identification datagram first", "ident")
+    req(d0["more"] == (1 if acc else 0), "identification datagram: more flag", "more")
     for k, ((op, ret, _), d) in enumerate(zip(acc, dgs[1:])):
         data, a = data_of(op), op["addr"]
         addr = ((a[0] & 0xFFFF) | a[1] << 16) if len(a) == 2 else a[0] & 0xFFFFFFFF
@@ -359,10 +358,10 @@ LEVEL_TEXT = ("Lean 4 proof over a hand-written model of Packet/SterilePacket: f
               "EtherCAT frame parser recovers header length/type, the identification datagram and every datagram's cmd, idx, address, "
               "length, more flag, data and working counter; data and wkc sit exactly at the positions append returned; frames are "
               "<= MAXSIZE and padded to 46 bytes; append rejects iff size or count limit is exceeded; sterile = assemble with NOP in "
-              "the cmd byte of writer datagrams. Tied to /repo by exact byte/position correspondence and regenerated constants. "
-              "The empty sequence is excluded (known finding: identification datagram keeps the more flag).")
+              "the cmd byte of writer datagrams. Full strength, the empty sequence included (the identification datagram carries "
+              "'more' exactly when a datagram follows). Tied to /repo by exact byte/position correspondence and regenerated constants.")
 LEVEL_NOTE = ("trusted: Lean kernel + propext/Classical.choice/Quot.sound; hand transcription Ebv.Frame validated (not verified) by "
-              "differential runs; struct.pack range behaviour modelled; known finding C11-empty-more: an empty packet assembles to a "
-              "frame whose only datagram has the more flag set")
+              "differential runs; struct.pack range behaviour modelled; old_header_refuted keeps the pre-a879e33 header (always 0x8002) "
+              "as a proven-malformed regression marker")
 TECHNIQUE = "Lean 4 induction over datagram lists (independent parser round-trip, layout lemmas) + differential byte correspondence"
 DESIGN_REF = "§4 C11"
